@@ -35,6 +35,14 @@ def gen_cases(ck):
                       "scale": float(10.0 ** ck.rng.uniform(-2, 2)), "shift": [float(ck.rng.normal() * 3), float(ck.rng.normal() * 3)],
                       "p_rev": float(ck.rng.choice([0.0, 0.5])), "shifts": True, "relabel": bool(ck.rng.integers(2)),
                       "fit": ["dlite", "taubinSVD"][int(ck.rng.integers(2))], "ignore_four": [None, False, True][int(ck.rng.integers(3))]})
+    for i in range(6 if ck.tier == "quick" else 30):
+        # a junction where five or six cells meet, with the ignore-four option on / off / absent
+        mob = bool(i % 2)
+        cases.append({"type": "tissue", "seed": int(ck.rng.integers(1 << 30)), "tissue": "penta", "sites": int(ck.rng.integers(16, 34)), "subset": None, "min_ridge": 0.004,
+                      "mobius": mob, "strength": float(ck.rng.uniform(0.3, 1.2)), "kmin": 1 if mob else 0, "kmax": [0, 3, 6][i % 3] if not mob else 4,
+                      "param_mode": "uniform", "angle": float(ck.rng.uniform(0, 2 * math.pi)), "near_axis": False,
+                      "scale": float(10.0 ** ck.rng.uniform(-1, 1)), "shift": [0.0, 0.0], "p_rev": 0.5, "shifts": True, "relabel": bool(i % 2),
+                      "fit": ["dlite", "taubinSVD"][i % 2], "ignore_four": [True, True, False, None][i % 4]})
     for i in range(4 if ck.tier == "quick" else 20):
         # the algebraic fit far from the origin (1e4..1e6 tissue sizes): the option must reach the matrix rows
         cases.append({"type": "tissue", "seed": int(ck.rng.integers(1 << 30)), "tissue": ["random", "jitter"][i % 2], "sites": int(ck.rng.integers(14, 30)),
